@@ -105,6 +105,9 @@ def run_check(mod, tier, seed, jobs=None, n_runs=None, chunk=None, per_run_timeo
                         harness_errors.append(f"worker failed on runs {futs[f][0]}..{futs[f][-1]}: {e!r}")
     except BaseException as e:
         harness_errors.append(f"pool failure: {e!r}")
+    if os.environ.get("VERIF_DUMP"):
+        with open(os.environ["VERIF_DUMP"], "w") as fh:
+            json.dump([{k: v for k, v in r.items() if k != "payload"} for r in results if r is not None], fh, default=str)
     findings = load_findings()
     violations = []
     known = {}
